@@ -346,7 +346,7 @@ func (g *generator) walkNumber(schema *schemaparser.Schema) (ast.Type, error) {
 		scalarKind = ast.KindFloat64
 	}
 
-	def := ast.NewScalar(scalarKind, ast.Default(schema.Default))
+	def := ast.NewScalar(scalarKind, ast.Default(unwrapJSONNumber(schema.Default)))
 
 	if schema.Constant != nil {
 		def.Scalar.Value = unwrapJSONNumber(schema.Constant[0])
